@@ -914,3 +914,18 @@ func leaves(v *V) []string {
 	}
 	return nil
 }
+
+// intLeaves is leaves() with booleans encoded as 0/1 (for trace slots and Int-sorted uninterpreted functions).
+func intLeaves(v *V) []string {
+	switch v.K {
+	case KBool:
+		return []string{sIte(v.S, "1", "0")}
+	case KStruct, KTuple:
+		var o []string
+		for _, f := range v.F {
+			o = append(o, intLeaves(f)...)
+		}
+		return o
+	}
+	return leaves(v)
+}
